@@ -703,3 +703,45 @@ Proof.
   split; [exact H1|]. split; [exact H2|]. split; [exact H3|]. split; [exact S1|]. split; [exact Po|].
   split; [exact Hp|]. split; [exact Hv|exact Hc].
 Qed.
+
+(* ------------------------------------------------------------------ *)
+(* K. which runs end in a clean error                                   *)
+(* ------------------------------------------------------------------ *)
+(* the input file is one of the files opened for writing *)
+Definition shm_alias (o : shm_opts) : bool :=
+  match so_input o with Some f => shm_mem f (so_outs o) | None => false end.
+
+(* as found, the tool reports an error exactly when argparse rejects the command line or the DIMACS reader
+   rejects the text: a text the reader accepts is never answered by an error, whatever the stream *)
+Theorem shm_clean_error_iff env argv stdin oracle :
+  cnfshuffle_main_env env argv stdin oracle = ShmCliError <->
+  shm_parse_args env argv = PaError \/
+  exists o, shm_parse_args env argv = PaOk o /\ shm_alias o = false /\
+            exists e k, parse_dimacs (shm_universal o) (shm_input_text env o stdin) = Err e k.
+Proof.
+  unfold cnfshuffle_main_env.
+  destruct (shm_plan_of false env argv stdin) as [o N F|r] eqn:Ep.
+  - pose proof (shm_run_outputs false env argv stdin oracle o N F Ep) as Ho.
+    destruct (shm_plan_run _ _ _ _ _ _ _ Ep) as (Ha & Hp & _).
+    split.
+    + intros H. rewrite H in Ho.
+      destruct (shm_draws (shm_bounds (so_nop o) (so_nov o) (so_noc o) N (len F)) oracle);
+        [destruct Ho as [t Ht]; discriminate|discriminate|discriminate].
+    + intros [H|(o' & H1 & _ & e & k & H2)]; [rewrite Ha in H; discriminate|].
+      rewrite Ha in H1. inversion H1; subst o'. rewrite Hp in H2. discriminate.
+  - unfold cnfshuffle_main_gen. rewrite Ep. cbn [shm_run]. unfold shm_plan_of in Ep.
+    destruct (shm_parse_args env argv) as [o| | |] eqn:Ea.
+    + destruct (shm_alias o) eqn:El; unfold shm_alias in El; rewrite El in Ep.
+      * inversion Ep; subst r. split; [discriminate|].
+        intros [H|(o' & H1 & H2 & _)]; [discriminate|]. inversion H1; subst o'.
+        unfold shm_alias in H2. rewrite El in H2. discriminate.
+      * destruct (parse_dimacs (shm_universal o) (shm_input_text env o stdin)) as [N F|e k] eqn:Epd.
+        -- destruct (so_nop o && (shm_word <=? N)); [|discriminate]. inversion Ep; subst r.
+           split; [discriminate|]. intros [H|(o' & H1 & _ & e & k & H2)]; [discriminate|].
+           inversion H1; subst o'. rewrite Epd in H2. discriminate.
+        -- inversion Ep; subst r. split; [|reflexivity]. intros _. right. exists o.
+           split; [reflexivity|]. split; [exact El|]. exists e, k. exact Epd.
+    + inversion Ep; subst r. split; [|reflexivity]. intros _. left. reflexivity.
+    + inversion Ep; subst r. split; [discriminate|]. intros [H|(o' & H1 & _)]; discriminate.
+    + inversion Ep; subst r. split; [discriminate|]. intros [H|(o' & H1 & _)]; discriminate.
+Qed.
